@@ -60,6 +60,10 @@ pub struct FuncInfo {
     /// number of `return_call` exits generated
     #[serde(default)]
     pub tail_calls: u32,
+    /// (instr idx of a `throw` that an enclosing `try_table` of the same function catches, mark
+    /// immediately before it)
+    #[serde(default)]
+    pub caught_throws: Vec<(u32, i32)>,
 }
 
 #[derive(Clone, Debug, Default, PartialEq, Eq, Serialize, Deserialize)]
@@ -119,6 +123,8 @@ struct Em<'a> {
     types: &'a mut Types,
     budget: i32,
     rich: bool,
+    /// number of enclosing try_tables (an uncaught-exit `throw` is only generated outside of them)
+    in_try: u32,
     /// functions that may be the target of `ref.func` (declared in an element segment)
     ref_funcs: Vec<u32>,
 }
@@ -418,6 +424,71 @@ impl Em<'_> {
             return;
         }
         match r {
+            34..=36 if self.rich => {
+                // block $catch { try_table (catch $t 0 | catch_all 0) { body; [guarded throw] } }
+                let b_open = self.out.len() as u32;
+                self.out.push(Ins::Block(BT::Empty));
+                self.labels.push(Lbl { is_loop: false, arity: 0, func_results: false });
+                let b_entry = self.mark();
+                let clause = if self.rng.chance(1, 2) { (Some(0), 0) } else { (None, 0) };
+                self.out.push(Ins::TryTable(BT::Empty, vec![clause]));
+                // the try_table label is never a branch target (arity sentinel), it only counts as a depth
+                self.labels.push(Lbl { is_loop: false, arity: 150, func_results: false });
+                self.mark();
+                self.in_try += 1;
+                self.body(nest + 2);
+                self.in_try -= 1;
+                if self.rng.chance(2, 3) {
+                    // a throw this try_table catches; the guard makes it path dependent
+                    self.out.push(Ins::Call(F_CHOOSE));
+                    self.out.push(Ins::I32Const(3));
+                    self.out.push(Ins::S(Simple::I32Eq));
+                    let opener = self.out.len() as u32;
+                    self.out.push(Ins::If(BT::Empty));
+                    self.labels.push(Lbl { is_loop: false, arity: 0, func_results: false });
+                    let m_entry = self.mark();
+                    let pre = self.mark();
+                    let tidx = self.out.len() as u32;
+                    self.out.push(Ins::Throw(0));
+                    self.info.caught_throws.push((tidx, pre));
+                    let m_fall = self.mark();
+                    let end = self.out.len() as u32;
+                    self.out.push(Ins::End);
+                    self.labels.pop();
+                    let m_after = self.mark();
+                    self.info.constructs.push(Construct {
+                        opener,
+                        kind: CK::If,
+                        else_idx: None,
+                        end,
+                        m_entry,
+                        m_fall,
+                        m_else_entry: None,
+                        m_else_fall: None,
+                        m_after,
+                    });
+                }
+                self.mark();
+                self.out.push(Ins::End);
+                self.labels.pop();
+                self.mark();
+                let b_fall = self.mark();
+                let b_end = self.out.len() as u32;
+                self.out.push(Ins::End);
+                self.labels.pop();
+                let b_after = self.mark();
+                self.info.constructs.push(Construct {
+                    opener: b_open,
+                    kind: CK::Block,
+                    else_idx: None,
+                    end: b_end,
+                    m_entry: b_entry,
+                    m_fall: b_fall,
+                    m_else_entry: None,
+                    m_else_fall: None,
+                    m_after: b_after,
+                });
+            }
             34..=47 => {
                 // block
                 let (bt, ar) = self.pick_bt();
@@ -679,8 +750,8 @@ impl Em<'_> {
                 if self.results.is_empty() && self.rng.chance(1, 3) {
                     self.out.push(Ins::Return);
                 } else {
-                    if self.rng.chance(1, 4) {
-                        // an exception nobody catches (tag 0 has no parameters)
+                    if self.in_try == 0 && self.rng.chance(1, 4) {
+                        // an exception nobody in this function catches (tag 0 has no parameters)
                         self.out.push(Ins::Throw(0));
                     } else {
                         self.out.push(Ins::Unreachable);
@@ -793,6 +864,7 @@ pub fn gen_program(rng: &mut Rng, rich: bool) -> (ModuleSpec, ProgInfo) {
             callees,
             types: &mut types,
             budget: 0,
+            in_try: 0,
             rich,
             ref_funcs: (0..nf as u32).map(|j| N_HOST + j).collect(),
         };
